@@ -381,7 +381,7 @@ Proof.
   - change (e_flight e2 = e_flight e). rewrite <- Hf. reflexivity.
   - change (e_out e2 = e_out e). rewrite <- Ho. reflexivity.
   - change (e_retr e2 = e_retr e). rewrite <- Hr. reflexivity.
-  - eexists. change (e_nst e2 = _). rewrite <- Hn. reflexivity.
+  - eexists. transitivity (e_nst e2); [reflexivity|]. rewrite <- Hn. reflexivity.
   - eauto.
 Qed.
 
@@ -417,17 +417,25 @@ Proof.
 Qed.
 
 Lemma pack_aux_len mtu : forall rs cur sz,
+  (is_nil cur = true -> sz = 0%N) ->
   length (pack_aux mtu cur sz rs) <= length rs + (if is_nil cur then 0 else 1).
 Proof.
-  induction rs as [|r rs IH]; intros cur sz; cbn [pack_aux length].
+  induction rs as [|r rs IH]; intros cur sz Hz; cbn [pack_aux length].
   - destruct cur; cbn; lia.
-  - dif.
-    + cbn [length]. specialize (IH [r] (r_size r)). cbn [is_nil] in IH. destruct cur; cbn [is_nil]; lia.
-    + specialize (IH (r :: cur) (sz + r_size r)%N). cbn [is_nil] in IH. destruct cur; cbn [is_nil]; lia.
+  - destruct ((0 <? sz)%N && (mtu <=? sz + r_size r)%N) eqn:Ec.
+    + cbn [length]. specialize (IH [r] (r_size r)). cbn [is_nil] in IH.
+      destruct cur; cbn [is_nil] in *.
+      * rewrite (Hz eq_refl) in Ec. cbn in Ec. discriminate.
+      * assert (false = true -> r_size r = 0%N) by discriminate. specialize (IH H). lia.
+    + specialize (IH (r :: cur) (sz + r_size r)%N). cbn [is_nil] in IH.
+      assert (false = true -> (sz + r_size r)%N = 0%N) by discriminate. specialize (IH H).
+      destruct cur; cbn [is_nil]; lia.
 Qed.
 
 Lemma pack_len c rs : length (pack c rs) <= length rs.
-Proof. unfold pack. pose proof (pack_aux_len (c_mtu c) rs [] 0%N) as H. cbn [is_nil] in H. lia. Qed.
+Proof.
+  unfold pack. pose proof (pack_aux_len (c_mtu c) rs [] 0%N (fun _ => eq_refl)) as H. cbn [is_nil] in H. lia.
+Qed.
 
 Lemma ack_dgram_len epo fs : length (ack_dgram epo fs) <= 1.
 Proof. destruct fs; cbn; lia. Qed.
@@ -577,9 +585,9 @@ Proof.
   intro Hb. unfold on_timer. destruct (e_fst e).
   - dif; [|cbn [fst snd]; split; [destruct Hb; split; cbn; assumption | cbn; lia]].
     apply do_send_bound. destruct Hb; split; cbn; assumption.
-  - destruct (e_nst e) eqn:En; cbn [fst snd]; [split; [exact Hb | cbn; lia]|].
-    destruct Hb as [H1 H2]. split; [split; cbn; [exact H1 | rewrite <- En; exact H2]|].
-    rewrite <- En. etransitivity; [apply pack_len | exact H2].
+  - pose proof (pack_len c (e_nst e)) as Hp. destruct Hb as [H1 H2].
+    destruct (e_nst e) eqn:En; cbn [fst snd]; [split; [split; [exact H1 | rewrite En; exact H2] | cbn; lia]|].
+    split; [|lia]. unfold bounded. cbn [set_nst e_out e_nst]. split; [exact H1 | exact H2].
 Qed.
 
 (* over whole histories: any sequence of received datagrams (arbitrary content, arbitrary times)
